@@ -82,6 +82,13 @@ async fn run_one(sc: &Value, listener: &TcpListener, sched: &AsyncSched, idx: us
     let gone = wait_until(|| futures_count(&n2) == 2, 500).await;
     log.lock().unwrap().clear();
     let never = ExternalPid::new(node.name().clone(), 555_555, 0, node.creation());
+    // Z: still in the process table, mailbox already closed (a process task that has ended but is not removed yet)
+    let zombie = ExternalPid::new(node.name().clone(), 444_444, 0, node.creation());
+    {
+        let (tx, rx) = tokio::sync::mpsc::channel::<edp_node::Message>(1);
+        drop(rx);
+        node.registry().insert(zombie.clone(), edp_node::ProcessHandle::new(zombie.clone(), tx)).await;
+    }
     let remote = ExternalPid::new(Atom::new(PEER), 11, 0, 1);
     // "eager_first": the peer sends the first frame of the scenario (a name-addressed message) in one piece with its last handshake message
     let eager = sc["eager_first"].as_bool().unwrap_or(false);
@@ -128,7 +135,7 @@ async fn run_one(sc: &Value, listener: &TcpListener, sched: &AsyncSched, idx: us
         if kind == "kill" {
             let _ = node.send(&p2, a("die")).await;
             let n4 = node.clone();
-            wait_until(|| futures_count(&n4) <= 1, 500).await;
+            wait_until(|| futures_count(&n4) <= 2, 500).await;
             steps.push(json!({"kind": "kill", "registered": node.connections().contains_key(PEER)}));
             continue;
         }
@@ -156,6 +163,7 @@ async fn run_one(sc: &Value, listener: &TcpListener, sched: &AsyncSched, idx: us
             // P1's number and serial under the creation of another incarnation / under another node's name: nobody here
             "S1" => ExternalPid::new(p1.node.clone(), p1.id, p1.serial, p1.creation.wrapping_add(1)),
             "F1" => ExternalPid::new(Atom::new("elsewhere@127.0.0.1"), p1.id, p1.serial, p1.creation),
+            "Z" => zombie.clone(),
             _ => never.clone(),
         };
         let body: Option<Vec<u8>> = match kind.as_str() {
